@@ -13,7 +13,7 @@ from lsx import driver, models_zlib, models_rel
 def _mk(gen, idx):
     def install(eng):
         api_common.install_time_stubs(eng)
-        models_rel.install_rel(eng, {'ddl': rel_common.ddl_for(gen, idx)})
+        models_rel.install_rel(eng, {'ddl': rel_common.ddl_for(gen, idx), 'seed': rel_common.seed_for(gen, idx)})
         # the independent raw-table reader belongs to C11: in a C07 / C08 / C09 run its assertion (which fires BEFORE the API-level comparison)
         # would end the path as "another property's assertion" and hide the API-level violation behind it (found with seeded change C07-1)
         if READER_ON: raw_reader.install(eng, gen)
